@@ -21,7 +21,7 @@ MANIFEST = {
 THEOREMS = ["C14_static_text_roundtrip", "C14_static_text_no_binding_start", "C14_static_text_no_special",
             "C14_legacy_static_text_becomes_binding", "C14_string_literal_roundtrip",
             "C14_printer_tables_ok", "C14_printer_paren_decision", "C14_text_piece_then_binding",
-            "C14_static_text_roundtrip_real_scanner"]
+            "C14_static_text_roundtrip_real_scanner", "C14_expression_string_literal_roundtrip"]
 
 
 def _norm_nodes(nodes):
@@ -71,6 +71,13 @@ def run(res):
             if n_sx <= 3:
                 res.violation("the stringifier prints an expression differently from the Coq model of stringify/expr.rs: impl=%s model=%s" % (
                     dec(i)[:200] if i != "STATIC" else i, dec(m)[:200] if m != "STATIC" else m), {"case": c.split("\t")}, no_input=True)
+    # the string-literal scanner of the expression parser = Model/WxStr.v (what the printer's literals are read back with)
+    rw = bulk_compare(["wxscan", res.tier, res.seed], "C14", eq=lambda i, m: i == m or (m == "E" and not i.startswith("V")))
+    res.notes["string_scanner_cases"] = rw["n"]
+    for (c, i, m) in rw["mismatches"][:3]:
+        res.violation("string literal body %r: the parser reads %s, the Coq model of the scanner says %s" % (
+            dec(c.split("\t")[-1]), dec(i[1:]) if i.startswith("V") else i, dec(m[1:]) if m.startswith("V") else m),
+            {"literal_body_with_closing_quote": dec(c.split("\t")[-1])})
     p = harness_run(["strfy", res.tier, res.seed], timeout=3000)
     jobs_in = [json.loads(l) for l in p.stdout.decode("utf8").split("\n") if l]
     found = 0
